@@ -455,6 +455,11 @@ func c04Enum(c *core.Ctx, p c04Params) {
 			}
 		}
 	}
+	if p.Shard == 0 {
+		c04NoQueue(c, "svc")
+		c04NoQueue(c, "a.b")
+		c04NoQueue(c, "")
+	}
 	// missing resources / unknown types of subject
 	for _, subj := range []string{"get.svc.zzz", "call.svc.zzz.do", "auth.svc.zzz.login", "access.svc.zzz", "get.svc", "call.svc.m", "get.svc.m.x.y.z", "call.svc.m.x.y.z.do"} {
 		start := rn.rig.C.Len()
@@ -472,6 +477,78 @@ func c04Enum(c *core.Ctx, p c04Params) {
 			c.Violation("C04/no-response:missing-resource", fmt.Sprintf("request %s got %d responses", subj, len(resp)), map[string]interface{}{"subject": subj, "responses": payloadStrs(resp)})
 		}
 	}
+}
+
+// c04NoQueue serves without queue group, with handlers on the service's root
+// resource as well: every copy NATS would deliver is delivered, so a request
+// that reaches the service through two subscriptions is answered twice.
+func c04NoQueue(c *core.Ctx, name string) {
+	tbl := &scriptTable{}
+	rg := newRig(name, func(s *res.Service) {
+		s.SetQueueGroup("")
+		scriptedService(s, tbl, nil)
+		s.Handle("", res.Access(res.AccessGranted), res.GetModel(func(r res.ModelRequest) { r.Model(map[string]int{"root": 1}) }),
+			res.Call("*", func(r res.CallRequest) { r.OK(nil) }), res.Auth("*", func(r res.AuthRequest) { r.OK(nil) }))
+	})
+	if err := rg.start(); err != nil {
+		c.Inconclusive("service failed to start: " + err.Error())
+		return
+	}
+	defer rg.stop()
+	id := tbl.add(scriptEntry{sc: script{{Op: "reply", K: "ok"}}, getSc: script{{Op: "reply", K: "model"}}})
+	pre := name
+	if pre != "" {
+		pre += "."
+	}
+	root := name
+	var subjects []string
+	if root != "" {
+		subjects = append(subjects, "get."+root, "access."+root, "call."+root+".ping", "call."+root+".new", "auth."+root+".login", "call."+root+".m", "call."+root+".zzz")
+	}
+	subjects = append(subjects, "get."+pre+"m."+id, "access."+pre+"m."+id, "call."+pre+"m."+id+".do", "call."+pre+"m."+id+".other", "auth."+pre+"m."+id+".login",
+		"call."+pre+"m."+id+".new", "get."+pre+"zzz", "call."+pre+"zzz.do", "auth."+pre+"zzz.login", "get."+pre+"probe", "access."+pre+"probe", "get."+pre+"m."+id+".x.y", "call."+pre+"bare."+id+".do")
+	for _, subj := range subjects {
+		for _, payload := range []string{``, `{"cid":"abc","token":{"u":1},"params":{"a":1}}`, `{"cid":`} {
+			start := rg.C.Len()
+			before := atomic.LoadInt64(&doneCount)
+			inbox, _, delivered := rg.send(subj, []byte(payload))
+			c.Eval(1)
+			c.Obs("noqueue_requests", 1)
+			w := map[string]interface{}{"service": name, "queue_group": "", "subject": subj, "payload": payload, "subscriptions": subjectsOf(rg.C.Subs())}
+			if delivered == 0 {
+				if !strings.Contains(subj, "zzz") && !strings.HasSuffix(subj, ".x.y") {
+					c.Violation("C04/no-response:noqueue-not-subscribed", fmt.Sprintf("request %s reaches no subscription of the service", subj), w)
+				}
+				continue
+			}
+			deadline := time.Now().Add(15 * time.Second)
+			for atomic.LoadInt64(&doneCount) < before+int64(delivered) && time.Now().Before(deadline) {
+				time.Sleep(200 * time.Microsecond)
+			}
+			if atomic.LoadInt64(&doneCount) < before+int64(delivered) {
+				c.Inconclusive("request.done not seen for every delivered copy of " + subj)
+				return
+			}
+			resp, _ := replies(rg.C.Since(start), inbox)
+			c.Distinct("noqueue/" + name + "/" + subj + "/" + payload)
+			if len(resp) != 1 {
+				w["responses"], w["delivered_copies"] = payloadStrs(resp), delivered
+				kind := "multiple-responses"
+				if len(resp) == 0 {
+					kind = "no-response"
+				}
+				c.Violation("C04/"+kind+":noqueue", fmt.Sprintf("without queue group, request %s was delivered through %d subscriptions and got %d responses", subj, delivered, len(resp)), w)
+			}
+		}
+	}
+}
+
+func subjectsOf(subs []vconn.Sub) []string {
+	var out []string
+	for _, s := range subs {
+		out = append(out, s.Subject)
+	}
+	return out
 }
 
 func c04Random(c *core.Ctx, p c04Params) {
